@@ -243,61 +243,108 @@ def write_evidence(prop, tier, seed, level, coverage, wall, violations, assumpti
 # hist-based properties (C01 C03 C07 C10 C11 C04 part)
 # ----------------------------------------------------------------------------------------------
 
-HIST_PROPS = {
-    "C01": dict(args=[], quick_runs=48, thorough_runs=1200, nops=60,
-                switches=[("Bug_RangeMin", "MC_RainCore_range.cfg", None),
-                          ("Bug_FlushLevelUnsafe", "MC_RainCore_q1.cfg", "ReadCorrect")]),
-    "C03": dict(args=["--max-snaps", "4", "--max-iters", "3", "--snap-bias", "1"], quick_runs=48,
-                thorough_runs=1200, nops=60,
-                switches=[("Bug_DropAboveSnapshot", "MC_RainCore_q1.cfg", "ReadCorrect"),
-                          ("Bug_DeletePinned", "MC_RainCore_pins.cfg", None)]),
-    "C07": dict(args=["--compact-bias", "1"], quick_runs=48, thorough_runs=1200, nops=70,
-                switches=[("Bug_NoBoundary", "MC_RainCore_q1.cfg", None),
-                          ("Bug_DropTombNoBase", "MC_RainCore_q1.cfg", None),
-                          ("Bug_ImmDropEarly", "MC_RainCore_q1.cfg", None)]),
-    "C10": dict(args=["--reopen-bias", "1"], quick_runs=48, thorough_runs=1000, nops=60,
-                switches=[("Bug_RangeMin", "MC_RainCore_range.cfg", None)]),
-    "C11": dict(args=["--max-iters", "3", "--compact-bias", "1"], quick_runs=48, thorough_runs=1000,
-                nops=60, switches=[("Bug_DeletePending", "MC_RainCore_q1.cfg", "NothingLiveDeleted"),
-                                   ("Bug_DeletePinned", "MC_RainCore_pins.cfg", "NothingLiveDeleted")]),
+CORE = "MC_RainCore.tla"
+DUR = "MC_RainDur.tla"
+Q1 = "MC_RainCore_q1.cfg"
+
+PROPS = {
+    "C01": dict(
+        design=[(CORE, [Q1], ["MC_RainCore_small.cfg", "MC_RainCore_pins.cfg"])],
+        switches=[("Bug_RangeMin", CORE, "MC_RainCore_range.cfg", None),
+                  ("Bug_FlushLevelUnsafe", CORE, Q1, "ReadCorrect")],
+        work=[dict(driver="hist", args=["--nops", "60", "--per-file", "6"], quick=48, thorough=1200)]),
+    "C03": dict(
+        design=[(CORE, [Q1], ["MC_RainCore_small.cfg", "MC_RainCore_pins.cfg"])],
+        switches=[("Bug_DropAboveSnapshot", CORE, Q1, "ReadCorrect"),
+                  ("Bug_DeletePinned", CORE, "MC_RainCore_pins.cfg", None)],
+        work=[dict(driver="hist", args=["--nops", "60", "--per-file", "6", "--max-snaps", "4",
+                                        "--max-iters", "3", "--snap-bias", "1"],
+                   quick=48, thorough=1200)]),
+    "C07": dict(
+        design=[(CORE, [Q1], ["MC_RainCore_small.cfg", "MC_RainCore_pins.cfg"])],
+        switches=[("Bug_NoBoundary", CORE, Q1, None), ("Bug_DropTombNoBase", CORE, Q1, None),
+                  ("Bug_ImmDropEarly", CORE, Q1, None)],
+        work=[dict(driver="hist", args=["--nops", "70", "--per-file", "6", "--compact-bias", "1"],
+                   quick=48, thorough=1200)]),
+    "C10": dict(
+        design=[(CORE, [Q1], ["MC_RainCore_small.cfg"])],
+        switches=[("Bug_RangeMin", CORE, "MC_RainCore_range.cfg", None)],
+        work=[dict(driver="hist", args=["--nops", "60", "--per-file", "6", "--reopen-bias", "1"],
+                   quick=48, thorough=1000),
+              dict(driver="crash", args=["--nops", "30", "--threads", "2", "--every", "3"],
+                   quick=4, thorough=60)]),
+    "C11": dict(
+        design=[(CORE, [Q1], ["MC_RainCore_small.cfg", "MC_RainCore_pins.cfg"])],
+        switches=[("Bug_DeletePending", CORE, Q1, "NothingLiveDeleted"),
+                  ("Bug_DeletePinned", CORE, "MC_RainCore_pins.cfg", "NothingLiveDeleted")],
+        work=[dict(driver="hist", args=["--nops", "60", "--per-file", "6", "--max-iters", "3",
+                                        "--compact-bias", "1"], quick=48, thorough=1000),
+              dict(driver="crash", args=["--nops", "30", "--threads", "2", "--every", "2", "--torn"],
+                   quick=4, thorough=60)]),
+    "C02": dict(
+        design=[(DUR, ["MC_RainDur_small.cfg"], ["MC_RainDur_small.cfg", "MC_RainDur_big.cfg"])],
+        switches=[("Bug_AckBeforeWal", DUR, "MC_RainDur_small.cfg", "Durable"),
+                  ("Bug_WalDeletedEarly", DUR, "MC_RainDur_small.cfg", None),
+                  ("Bug_ManifestBeforeTable", DUR, "MC_RainDur_small.cfg", None),
+                  ("Bug_CurrentInPlace", DUR, "MC_RainDur_small.cfg", None),
+                  ("Bug_RecoverSkipsOlderWal", DUR, "MC_RainDur_small.cfg", "Durable")],
+        work=[dict(driver="crash", args=["--nops", "40", "--threads", "2", "--both-reuse"],
+                   quick=8, thorough=150),
+              dict(driver="crash", args=["--nops", "25", "--threads", "2", "--large",
+                                         "--gen2-every", "9"], quick=4, thorough=60)]),
+    "C16": dict(
+        design=[(DUR, ["MC_RainDur_small.cfg"], ["MC_RainDur_small.cfg", "MC_RainDur_big.cfg"])],
+        switches=[("Bug_ReuseAfterTornTail", DUR, "MC_RainDur_small.cfg", None)],
+        work=[dict(driver="crash", args=["--nops", "30", "--threads", "2", "--torn", "--every", "4"],
+                   quick=8, thorough=150),
+              dict(driver="crash", args=["--nops", "20", "--threads", "2", "--torn", "--large",
+                                         "--every", "4"], quick=4, thorough=40)]),
 }
 
-PROP_SEED_BASE = {"C01": 1000, "C03": 3000, "C07": 7000, "C10": 10000, "C11": 11000}
+PROP_SEED_BASE = {"C01": 1000, "C03": 3000, "C07": 7000, "C10": 10000, "C11": 11000,
+                  "C02": 2000, "C16": 16000}
 
 
-def check_hist(prop, tier, seed):
+def check_prop(prop, tier, seed):
     t0 = time.time()
-    conf = HIST_PROPS[prop]
+    conf = PROPS[prop]
     build_s = build_harness()
     log(f"[{prop}] harness built in {build_s:.0f}s")
 
-    # (M) design model
+    # (M) design models
     design = []
-    cfgs = ["MC_RainCore_q1.cfg"] if tier == "quick" else ["MC_RainCore_small.cfg", "MC_RainCore_pins.cfg"]
-    for cfg in cfgs:
-        d = design_check(f"design-{prop}", "MC_RainCore.tla", cfg, workers=min(12, NCPU),
-                         timeout=900 if tier == "quick" else 3600, heap="12g")
-        design.append(d)
-        log(f"[{prop}] design model {cfg}: {d['distinct']} distinct states, depth {d['depth']}, {d['wall_s']}s")
+    for module, qcfgs, tcfgs in conf["design"]:
+        for cfg in (qcfgs if tier == "quick" else tcfgs):
+            d = design_check(f"design-{prop}", module, cfg, workers=min(12, NCPU),
+                             timeout=900 if tier == "quick" else 5400, heap="12g")
+            design.append(d)
+            log(f"[{prop}] design model {cfg}: {d['distinct']} distinct states, depth {d['depth']}, {d['wall_s']}s")
     switches = []
-    for sw, swcfg, expect in conf["switches"]:
-        r = bug_switch_check(f"bug-{prop}-{sw}", "MC_RainCore.tla", swcfg, sw, expect)
+    for sw, module, swcfg, expect in conf["switches"]:
+        r = bug_switch_check(f"bug-{prop}-{sw}", module, swcfg, sw, expect)
         switches.append(r)
         log(f"[{prop}] switch {sw}: {r['found']} ({r['wall_s']}s)")
 
     # (B) drive the real code, validate traces
-    runs = conf["quick_runs"] if tier == "quick" else conf["thorough_runs"]
-    outdir = f"{OUT}/{prop}-{tier}"
     nproc = min(12, NCPU)
-    seed0 = PROP_SEED_BASE[prop] + seed * 100000
-    recs = run_driver_parallel("hist", outdir, seed0, runs, nproc,
-                               ["--nops", str(conf["nops"]), "--per-file", "6"] + conf["args"],
-                               deadline=1800 if tier == "quick" else 7200)
-    files = sorted(glob.glob(f"{outdir}/p*/part*/trace_*.ndjson"))
-    log(f"[{prop}] {len(recs)} histories executed, {len(files)} trace files")
+    recs, files = [], []
+    extra = {}
+    for wi, w in enumerate(conf["work"]):
+        runs = w[tier]
+        outdir = f"{OUT}/{prop}-{tier}-{wi}"
+        seed0 = PROP_SEED_BASE[prop] + wi * 500 + seed * 100000
+        r = run_driver_parallel(w["driver"], outdir, seed0, runs, min(nproc, runs), w["args"],
+                                deadline=1800 if tier == "quick" else 14400)
+        recs += r
+        files += sorted(glob.glob(f"{outdir}/p*/part*/trace_*.ndjson"))
+        log(f"[{prop}] {w['driver']}: {len(r)} runs executed")
+        if w["driver"] == "crash":
+            for k in ("journal_ops", "probes", "torn_probes", "gen2_probes"):
+                extra["crash_" + k] = extra.get("crash_" + k, 0) + sum(x["crash"][k] for x in r)
     vruns, rejects, tstates = validate_traces(files, "RainCore_Trace.tla", "RainCore_Trace.cfg",
                                               nproc, prop)
-    return finish(prop, tier, seed, t0, design, switches, recs, vruns, rejects, tstates, outdir)
+    return finish(prop, tier, seed, t0, design, switches, recs, vruns, rejects, tstates, None,
+                  extra_cov=extra)
 
 
 def finish(prop, tier, seed, t0, design, switches, recs, vruns, rejects, tstates, outdir,
@@ -406,8 +453,8 @@ def main():
     try:
         if prop == "replay":
             return replay(sys.argv[2])
-        if prop in HIST_PROPS:
-            return check_hist(prop, tier, seed)
+        if prop in PROPS:
+            return check_prop(prop, tier, seed)
         log(f"unknown property {prop}")
         return 2
     except ToolError as e:
@@ -426,7 +473,8 @@ def replay(path):
     r = sh([BIN, rp["driver"], "--replay", path, "--out", outdir], timeout=900)
     log(r.stdout[-2000:])
     files = sorted(glob.glob(f"{outdir}/trace_*.ndjson"))
-    spec = {"hist": ("RainCore_Trace.tla", "RainCore_Trace.cfg")}[rp["driver"]]
+    spec = {"hist": ("RainCore_Trace.tla", "RainCore_Trace.cfg"),
+            "crash": ("RainCore_Trace.tla", "RainCore_Trace.cfg")}[rp["driver"]]
     vruns, rejects, _ = validate_traces(files, spec[0], spec[1], 2, "replay")
     for vr in vruns:
         log(json.dumps(vr)[:4000])
